@@ -274,7 +274,7 @@ def patch_side_names(ctx):
         if k % ctx.nshards != ctx.index:
             continue
         pn = zp.PLATFORM_NAMES[pl]
-        ops = [dict(op="FHDR", version=3), dict(op="T", platform=pl)]
+        ops = [dict(op="FHDR", version=3), dict(op="T", platform=pl, region=rng.choice([-1, 1]))]      # both regions the format knows
         expected = set()
         folder = "ffxiv" if ex == 0 else "ex%d" % ex
         for cat in CATS:
